@@ -331,6 +331,16 @@ type withIface struct {
 	I interface{}
 }
 
+type ptrBox struct{ p *int }
+type chanBox struct{ c chan int }
+type nestBox struct{ b ptrBox }
+type map1Box struct{ a [0]int }
+type funcFree struct{ n int }
+
+var boxChans = []chan int{make(chan int, 2), make(chan int, 2)}
+
+func (b ptrBox) String() string { return fmt.Sprintf("box(%p)", b.p) }
+
 type stringer interface{ String() string }
 type valStr struct{ s string }
 type ptrStr struct{ n int }
@@ -374,6 +384,9 @@ func anyPool() []interface{} {
 		padded{1, 2, 3, "x"}, dirtyPadded(1, 2, 3, cloneStr("x")), [2]int{1, 2}, [2]string{"a", "b"},
 		valStr{"v"}, ptrStrs[0], ptrStrs[1], complex(1, negZero), complex(1, 0), withIface{1, "z"}, withIface{1, cloneStr("z")},
 		struct{}{}, uintptr(7), 'x', float32(0.5),
+		// dynamic values that are pointer-SHAPED without being pointers: stored directly in the interface word
+		ptrBox{&cellsI[2]}, ptrBox{&cellsI[3]}, ptrBox{&cellsI[2]}, ptrBox{nil}, [1]*int{&cellsI[2]}, [1]*int{nil}, chanBox{boxChans[0]}, chanBox{boxChans[1]}, chanBox{nil},
+		nestBox{ptrBox{&cellsI[4]}}, nestBox{ptrBox{nil}}, map1Box{}, funcFree{1},
 	}
 }
 
@@ -463,6 +476,11 @@ func TestC10(t *testing.T) {
 				cellsI[i%len(cellsI)] += i + 1
 				cellsS[i%len(cellsS)].B += int64(i) + 1
 				ptrStrs[i%len(ptrStrs)].n += i + 1
+				select { // change the fill of a wrapped channel's buffer
+				case boxChans[i%2] <- i:
+				default:
+					<-boxChans[i%2]
+				}
 			},
 			descr: func(k interface{}) string { return fmt.Sprintf("%T(%v)", k, k) }})
 	})
@@ -537,8 +555,9 @@ func TestC10(t *testing.T) {
 	})
 	run("nonemptyinterface", func(rt *rapid.T) {
 		runKeyCase(rt, keyType[stringer]{name: "nonemptyinterface", pool: func() []stringer {
-			return []stringer{nil, valStr{"a"}, valStr{cloneStr("a")}, valStr{"b"}, ptrStrs[0], ptrStrs[1], ptrStrs[2], ptrStrs[0], (*ptrStr)(nil)}
-		}, mutate: func(i int) { ptrStrs[i%len(ptrStrs)].n += i + 1 },
+			return []stringer{nil, valStr{"a"}, valStr{cloneStr("a")}, valStr{"b"}, ptrStrs[0], ptrStrs[1], ptrStrs[2], ptrStrs[0], (*ptrStr)(nil),
+				ptrBox{&cellsI[2]}, ptrBox{&cellsI[3]}, ptrBox{&cellsI[2]}, ptrBox{nil}}
+		}, mutate: func(i int) { ptrStrs[i%len(ptrStrs)].n += i + 1; cellsI[2+i%2] += i + 1 },
 			descr: func(k stringer) string { return fmt.Sprintf("%T(%p)", k, k) }})
 	})
 }
